@@ -82,7 +82,9 @@ type Hist struct {
 }
 
 func (h *Hist) Note(n int64) {
-	if n >= 0 && n < 1<<40 {
+	// keep the virtual clock well inside the range of time.Duration (292 years): sleeps are
+	// drawn relative to the noted values and a history has at most ~30 of them
+	if n >= 0 && n <= 100_000_000 {
 		h.InPlay = append(h.InPlay, n)
 	}
 }
